@@ -276,7 +276,7 @@ func Run(c *core.Ctx) int {
 			c.Inconclusive("reference-timeout")
 			return
 		}
-		cr := c.CompileJS(dir, core.CompileOpt{})
+		cr := c.CompileJS(dir, core.CompileOpt{Env: []string{"GOPHERJS_VERIF_MON_EMBED=1"}})
 		if !cr.OK {
 			c.Violate(name, "compiler rejected a program the reference accepts:\n"+cr.Output, bundle(nil))
 			return
@@ -393,7 +393,7 @@ func Run(c *core.Ctx) int {
 				return
 			}
 		}
-		cr := c.CompileJS(dir, core.CompileOpt{})
+		cr := c.CompileJS(dir, core.CompileOpt{Env: []string{"GOPHERJS_VERIF_MON_EMBED=1"}})
 		if !cr.OK {
 			c.Violate(name, "compiler rejected a program the reference accepts:\n"+cr.Output, bundle(nil))
 			return
